@@ -549,6 +549,10 @@ def _ref_points(shape, rng, n, cls):
     return None
 
 
+def mesh_eval(mesh, P, dofs):
+    return np.asarray(mesh.Evaluate_dofsValues_at_coordinates(P, dofs))
+
+
 def run_locate(case, ctx, rng):
     et, mc = case["et"], case["mesh"]
     shape = geo.topo(et)
@@ -579,6 +583,14 @@ def run_locate(case, ctx, rng):
                 mesh = gm.rebuild(mesh, coord=Xc)
         else:
             mesh, dim, measure, cen, info = make_mesh(rng, et, mc)
+    # the length unit is the user's: the same mesh in metres, millimetres-as-metres, ... locates its points equally well
+    unit = float([1.0, 1e-3, 1e3, 1e-2][case["index"] % 4]) if mc in ("gmsh", "general", "partly-distorted") else 1.0
+    if unit != 1.0:
+        with quiet():
+            mesh = gm.rebuild(mesh, coord=mesh.coord * unit)
+        key = key + "@unit-scaled"
+        ctx.default_key = key
+        ctx.event(f"length-unit:{unit:g}")
     order = gm.ORDER[et]
     X = mesh.coord
     tensor = shape in ("QUAD", "HEXA")
@@ -589,7 +601,8 @@ def run_locate(case, ctx, rng):
         deg = order  # triangle x segment: affine prisms for extruded triangles
     else:
         deg = order
-    f = _poly_field(rng, dim, deg)
+    f0 = _poly_field(rng, dim, deg)
+    f = (lambda P: f0(np.asarray(P) / unit)) if unit != 1.0 else f0      # the same field, written in the user's unit
     vals = f(X)
     dofs = vals.ravel()
     groups = mesh.Get_list_groupElem(dim)
@@ -668,6 +681,23 @@ def run_locate(case, ctx, rng):
             continue
         ctx.check("location-values", relerr(got, want, scale=np.abs(vals).max()), tol, ckey + "/values", n=len(P), degree=deg, et=et)
         nontrivial = True
+    if dim == 2 and mc == "gmsh":
+        # a full grid of integer (pixel) coordinates over a rectangle mesh with integer corners, as image-based measurements give
+        # them: every pixel, those on the upper sides of the rectangle included, carries the field
+        with ctx.monitored("no-exception", key + "/pixel-grid/raised"):
+            with quiet():
+                nxp, nyp = int(rng.integers(6, 12)), int(rng.integers(5, 10))
+                rect = np.array([[0, 0], [nxp, 0], [nxp, nyp], [0, nyp]], float)
+                gmesh = gm.mesh2d(rect, et, float(rng.uniform(1.5, 3.0)))
+                xs_, ys_ = np.meshgrid(np.arange(0, nxp + 1), np.arange(0, nyp + 1))
+                Pi = np.c_[xs_.ravel(), ys_.ravel(), np.zeros(xs_.size, int)]
+                fl = _poly_field(rng, 2, 1)
+                gdofs = fl(gmesh.coord).ravel()
+                got_i = mesh_eval(gmesh, Pi, gdofs)
+                got_f = mesh_eval(gmesh, Pi.astype(float), gdofs)
+        want = fl(Pi.astype(float))
+        ctx.check("location-values", relerr(got_f, want, scale=np.abs(want).max()), 1e-6 if tensor else 1e-9, key + "/pixel-grid/float-coordinates", n=len(Pi), et=et)
+        ctx.check("location-values", relerr(got_i, want, scale=np.abs(want).max()), 1e-6 if tensor else 1e-9, key + "/pixel-grid/integer-coordinates", n=len(Pi), et=et)
     ctx.describe(f"locate/{et}/{mc}", nontrivial and mesh.Ne >= 2 and deg >= 1, et=et, mesh=mc, degree=deg, Ne=mesh.Ne)
 
 
